@@ -108,7 +108,8 @@ class VirtualLoop(asyncio.BaseEventLoop):
         self.iterations = 0
         self._port_counter = 40000
         self.set_exception_handler(self._on_exception)
-        self.fail_datagram_endpoint = False
+        self.fail_datagram_endpoint = False     # True: every socket creation fails; "ipv6": only IPv6 ones (no IPv6 host)
+        self.executor_delay = 0                 # loop iterations a run_in_executor job takes (0 = done at once, inline)
 
     # --- BaseEventLoop plumbing -------------------------------------------------------------
     def time(self) -> float:
@@ -126,10 +127,25 @@ class VirtualLoop(asyncio.BaseEventLoop):
 
     def run_in_executor(self, executor, func, *args):  # noqa: ANN001, ANN201
         fut = self.create_future()
-        try:
-            fut.set_result(func(*args))
-        except Exception as e:  # noqa: BLE001
-            fut.set_exception(e)
+
+        def finish() -> None:
+            if fut.done():
+                return
+            try:
+                fut.set_result(func(*args))
+            except Exception as e:  # noqa: BLE001
+                fut.set_exception(e)
+
+        def hop(left: int) -> None:
+            if left <= 0:
+                finish()
+            else:
+                self.call_soon(hop, left - 1)
+        if self.executor_delay <= 0:
+            finish()
+        else:
+            # a worker thread hands its result back some loop iterations later
+            self.call_soon(hop, self.executor_delay - 1)
         return fut
 
     async def getaddrinfo(self, host, port, *, family=0, type=0, proto=0, flags=0):  # noqa: ANN001, ANN201, A002
@@ -141,10 +157,12 @@ class VirtualLoop(asyncio.BaseEventLoop):
 
     async def create_datagram_endpoint(self, protocol_factory, local_addr=None, remote_addr=None, **kwargs):  # noqa: ANN001, ANN201
         await asyncio.sleep(0)
-        if self.fail_datagram_endpoint:
-            raise OSError(98, "Address already in use")
-        protocol = protocol_factory()
         host, port = (local_addr or ("0.0.0.0", 0))[:2]
+        if self.fail_datagram_endpoint is True:
+            raise OSError(98, "Address already in use")
+        if self.fail_datagram_endpoint == "ipv6" and ":" in str(host):
+            raise OSError(97, "Address family not supported by protocol")
+        protocol = protocol_factory()
         if port == 0:
             self._port_counter += 1
             port = self._port_counter
